@@ -151,6 +151,59 @@ Definition whiten_row (mean : list F) (W : mat) (x : list F) : list F :=
   map (fun w => vdot (vsub x mean) w) W.
 Definition whiten_transform (mean : list F) (W : mat) (X : mat) : mat := map (whiten_row mean W) X.
 
+(** Whitener::fit - the glue around the decompositions (whitening.rs).  The decompositions themselves
+    (linfa-linalg's SVD, Cholesky factorisation and inverse) are outside the model: their results enter
+    through the record [decomps] and are characterised by contracts in C16/WhitenProofs.v.  The matrix
+    products are the exact-arithmetic ones (like [whiten_row]; the floating-point products go through
+    matrixmultiply and are not reproduced bit for bit).
+      mean  = records.mean_axis(0);  sigma = records - mean
+      Pca:      (_, s, v_t) = svd(sigma);  s = max(s, 1e-8);  row i of v_t *= sqrt(n - 1) / s_i
+      Zca:      cov = sigma^T sigma / (n - 1);  (u, s, _) = svd(cov);  s = max(1 / sqrt(s), 1e-8);
+                u . (eye * s) . u^T
+      Cholesky: cov as above;  (cholesky(inverse(cov)^T))^T
+    [floor] is the constant `F::cast(1e-8)`. *)
+Definition center (mean : list F) (X : mat) : mat := map (fun x => vsub x mean) X.
+Definition mat_t (p : nat) (A : mat) : mat := columns p A.                  (* transpose of a matrix with p columns *)
+Definition mat_mul (q : nat) (A B : mat) : mat :=                             (* A . B, B with q columns *)
+  map (fun a => map (fun j => vdot a (col j B)) (seq 0 q)) A.
+Definition cov_matrix (p : nat) (S : mat) : mat :=
+  let d := of_N o (N.of_nat (Nat.sub (length S) 1)) in
+  map (map (fun x => x / d)) (mat_mul p (mat_t p S) S).
+Fixpoint zip_rows (f : list F -> F -> list F) (A : mat) (s : list F) : mat :=
+  match A, s with r :: A', x :: s' => f r x :: zip_rows f A' s' | _, _ => [] end.
+Definition pca_matrix (floor : F) (n : nat) (s : list F) (Vt : mat) : mat :=
+  let c := sqrt o (of_N o (N.of_nat (Nat.sub n 1))) in
+  zip_rows (fun row si => map (fun v => v * (c / fmax si floor)) row) Vt s.
+(** `Array2::eye(p) * s` (broadcast along the rows): entry (i, j) = eye(i, j) * s_j *)
+Definition diag_cols (p : nat) (s : list F) : mat :=
+  map (fun i => map (fun j => (if Nat.eqb i j then one o else zero o) * nth j s (zero o)) (seq 0 p)) (seq 0 p).
+Definition zca_matrix (floor : F) (p : nat) (s : list F) (U : mat) : mat :=
+  let s' := map (fun x => fmax (one o / sqrt o x) floor) s in
+  mat_mul p (mat_mul p U (diag_cols p s')) (mat_t p U).
+Definition chol_matrix (p : nat) (L : mat) : mat := mat_t p L.
+
+Inductive wmethod := WPca | WZca | WCholesky.
+(** results of the decompositions as functions of their input matrix: singular values and V^T of the compact
+    SVD, singular values and U of the compact SVD, lower Cholesky factor of the transposed inverse *)
+Record decomps := mkDecomps {
+  svd_vt : mat -> list F * mat; svd_u : mat -> list F * mat; inv_chol : mat -> mat }.
+
+(** None = NotEnoughSamples (errors of the decompositions are not modelled) *)
+Definition whiten_fit (lay : layout) (floor : F) (dec : decomps) (m : wmethod) (p : nat) (X : mat)
+  : option (list F * mat) :=
+  match X with
+  | [] => None
+  | _ :: _ =>
+      let mean := map (col_mean lay) (columns p X) in
+      let S := center mean X in
+      Some (mean,
+            match m with
+            | WPca => let '(s, vt) := svd_vt dec S in pca_matrix floor (length X) s vt
+            | WZca => let '(s, u) := svd_u dec (cov_matrix p S) in zca_matrix floor p s u
+            | WCholesky => chol_matrix p (inv_chol dec (cov_matrix p S))
+            end)
+  end.
+
 End Scalers.
 
 Arguments method : clear implicits. Arguments scaler : clear implicits.
@@ -158,6 +211,7 @@ Arguments fit_result : clear implicits. Arguments mat : clear implicits.
 Arguments Standard {F}. Arguments MinMax {F}. Arguments MaxAbs {F}.
 Arguments FitOk {F}. Arguments NotEnoughSamples {F}. Arguments FlippedMinMaxRange {F}.
 Arguments mkScaler {F}. Arguments offsets {F}. Arguments scales {F}. Arguments meth {F}.
+Arguments decomps : clear implicits. Arguments mkDecomps {F}. Arguments svd_vt {F}. Arguments svd_u {F}. Arguments inv_chol {F}.
 
 (** Dataset-level forms: the records are replaced, everything else is handed through
     (`DatasetBase::new(records, targets).with_weights(..).with_feature_names(..).with_target_names(..)`) *)
